@@ -170,6 +170,7 @@ type RaceInfo struct {
 type Options struct {
 	Chooser      Chooser
 	Record       bool // record events and points
+	RecordN      bool // record only the size of the enabled set at every point (delay-bounded DFS)
 	Clocks       bool // maintain vector clocks
 	Races        bool // run the happens-before race detector on Access calls (implies Clocks)
 	Sites        bool // capture source positions of blocking operations (slow)
@@ -190,6 +191,7 @@ type Result struct {
 	UncheckedZero []string // single-value receives that returned the zero value of a closed channel
 	Trace         []Event
 	Points        []Point
+	NEnabled      []int32 // with RecordN: size of the enabled set per point
 	MaxEnabled    int
 	Buffered      int    // values left in channel buffers at quiescence
 	Internal      string // non-empty: internal error of the machinery (never a property violation)
@@ -374,6 +376,9 @@ func (s *Sched) dispatch(from *G) {
 		}
 	}
 	g := en[c]
+	if s.opt.RecordN {
+		s.res.NEnabled = append(s.res.NEnabled, int32(len(en)))
+	}
 	if s.opt.Record {
 		ids := make([]int, len(en))
 		for i, e := range en {
